@@ -126,8 +126,8 @@ def check_case(case):
     dcases = [tuple(c) for c in cs] if cs else None
     with xfn.CallLog() as direct:
         if farmer:
-            runner = xyz.Runner(f, var_names="out", constants=constants,
-                                resources=resources)
+            runner = xyz.Runner(f, var_names="out", constants=dict(constants),
+                                resources=dict(resources))
             okw = {"constants": override} if override else {}
             if kind == "grid":
                 runner.run_combos(dcombos, verbosity=0, **okw)
@@ -138,10 +138,11 @@ def check_case(case):
                                  else (), verbosity=0, **okw)
         else:
             if kind == "grid":
-                xyz.combo_runner(f, dcombos, constants=constants, verbosity=0)
+                xyz.combo_runner(f, dcombos, constants=dict(constants),
+                                 verbosity=0)
             else:
                 xyz.case_runner(f, fn_args, dcases, combos=dcombos,
-                                constants=constants, verbosity=0)
+                                constants=dict(constants), verbosity=0)
     want = collections.Counter(direct.encs())
     if sum(want.values()) != n or max(want.values()) != 1:
         raise core.HarnessError("reference run is not n distinct calls")
@@ -153,12 +154,12 @@ def check_case(case):
         kws[mode] = req
     if farmer:
         crop = runner.Crop(name="c7", parent_dir=d, **kws)
-        sow_consts = override
+        sow_consts = dict(override) if override else None
     else:
         crop = xyz.Crop(fn=f, name="c7", parent_dir=d,
                         shuffle=(shuffle if kind == "cases" else False),
                         **kws)
-        sow_consts = constants or None
+        sow_consts = dict(constants) if constants else None
     if kind == "cases":
         crop.sow_cases(fn_args, dcases, constants=sow_consts, verbosity=0)
     elif kind == "grid":
